@@ -5,30 +5,6 @@ import (
 	"strings"
 )
 
-func symAlnum() byte {
-	b := symByte()
-	symAssume((b >= 'A' && b <= 'Z') || (b >= '0' && b <= '9'))
-	return b
-}
-
-func symMID(n int) string {
-	b := make([]byte, n)
-	for i := range b {
-		b[i] = symAlnum()
-	}
-	return string(b)
-}
-
-func eqFoldHex(a, b byte) bool {
-	if a >= 'a' && a <= 'f' {
-		a -= 32
-	}
-	if b >= 'a' && b <= 'f' {
-		b -= 32
-	}
-	return a == b
-}
-
 // C05 K1: emitted proposal block = reference block (lines, CR, two-hex-digit
 // two's-complement checksum), at most five proposals, in the given order.
 func H_c05_emit_proposals() {
@@ -143,19 +119,6 @@ func H_c05_emit_frame() {
 	symAssert(err == nil, "receiver-accepts-emitted-frame")
 	symAssert(bytes.Equal(q.compressedData, data[offset:]), "receiver-recovers-payload")
 	symReach("end")
-}
-
-func chunkList(n, size int) []int {
-	var c []int
-	for n > 0 {
-		k := size
-		if n < k {
-			k = n
-		}
-		c = append(c, k)
-		n -= k
-	}
-	return c
 }
 
 // C05 K4: every legal answer string is parsed to the prescribed outcome
